@@ -1,6 +1,8 @@
 """Maintenance: apply a textual mutation to /repo, run a check, restore.  usage: mut.py PROP FILE OLD NEW"""
 import subprocess, sys
 prop, path, old, new = sys.argv[1:5]
+dirty = subprocess.run(["git", "-C", "/repo", "status", "--porcelain"], capture_output=True, text=True).stdout.strip()
+assert not dirty, "refusing to mutate: /repo has uncommitted changes (they would be lost on restore)"
 full = "/repo/" + path
 src = open(full).read()
 assert src.count(old) >= 1, "pattern not found"
